@@ -96,6 +96,16 @@ PROPS = {
                      "byte-identical output across carriers is implied only through `same Config`; equality of the library's output for equal Configs is determinism of format_code, not proved"],
         assumptions=["ec4rs Properties::get::<T>() returns the parsed value of key T (wrappers); the string parsers generated by property_choice! are macro output (assumed)"],
         technique="Kani complete enumeration of finite enum domains + Verus contracts on mechanically extracted real functions"),
+    "C07": dict(units=["expr", "block", "ctx", "lib", "tok", "cli_io", "diff", "config", "econf"], kani=["shape"],
+        explanation="Totality of the library call, decided per function under contract: inside every function whose real text is verified, each panic!/unreachable!/assert!/expect/unwrap, "
+                    "each usize subtraction/addition/multiplication and every recursion or loop (decreases) is an obligation Verus discharges for all inputs (one `.total` obligation per function and "
+                    "feature set). format_code returns Err(ParseError) iff the input does not parse and never Ok otherwise; format_ast without verification always returns Ok. "
+                    "Kani: Shape/Indent arithmetic cannot overflow within stated input bounds.",
+        not_decided=["functions not under contract (assignment tactics, table/function-body layout, call chains, Luau types, trivia_util): their panic sites are not covered; coverage is measured in the evidence (panic_sites)",
+                     "running time in proportion to input size and stack depth: no cost semantics in the verifier",
+                     "panics inside full_moon (e.g. BinOp::precedence `expect(\"invalid token\")`) and other dependencies"],
+        assumptions=["machine integers: indent arithmetic (nesting depth x indent_width) and Display widths are treated as non-overflowing (stated preconditions / holes); Kani bounds: indent width < 2^16, nesting < 2^24, widths < 2^32"],
+        technique="Verus: panic/arithmetic/termination obligations of every function under contract; Kani complete loop-free harness for Shape arithmetic within stated bounds"),
     "C02": dict(units=["expr", "block", "lib", "tok"],
         explanation="expression spine: same obligations as C05 (operator tree, leaves, operators)",
         not_decided=["statement/block/args/token layers are decided in their own units (see runs)"],
@@ -162,7 +172,6 @@ NOT_APPLICABLE = {
     "C06": "two-run relational property over the whole layout engine with a re-lex in between; no per-function contract expresses it (DESIGN.md §9)",
     "C16": "file selection is done by the ignore/globset crates and inline code of the 300-line format(); no function boundary carries the property (DESIGN.md §9)",
     "C19": "a schedule property of std atomics and a thread pool; Kani has no threads and Verus needs its own permission-carrying atomics which the real code does not use (DESIGN.md §9)",
-    "C07": "not claimed yet: aggregate of the per-function panic/termination obligations is under construction",
     "C12": "not claimed yet: unit sort under construction",
 }
 
